@@ -134,3 +134,254 @@ def task_lambda_hook(method, stub, names):
             vals.append(P.expr(u) if ft.get('qualType', '').rstrip().endswith('&') else P.expr(e))
         return f'{stub}({selfexpr}, {1 if by_copy else 0}, {", ".join(vals)})'
     return h
+# ----------------------------------------------------------------------------- std::variant
+# C model convention (written by the spec's prelude): struct { uint8_t index; T0 a0; T1 a1; ... } -- `index` is
+# variant::index(), `a<k>` the storage of alternative k (alternatives without state, e.g. std::monostate, need no member).
+# The alternative order is always read from clang's type of the variant expression, never from the spec.
+def split_top(s):
+    out, depth, cur = [], 0, ''
+    for ch in s:
+        if ch in '<([':
+            depth += 1
+        elif ch in '>)]':
+            depth -= 1
+        if ch == ',' and depth == 0:
+            out.append(cur.strip())
+            cur = ''
+        else:
+            cur += ch
+    if cur.strip():
+        out.append(cur.strip())
+    return out
+
+
+def _norm(t):
+    return re.sub(r'\s+', '', strip_cv(t))
+
+
+def variant_alternatives(t):
+    """alternative types of a std::variant type (clang type object or string), or None"""
+    q = t if isinstance(t, str) else qual(t)
+    q = strip_cv(q)
+    while q.endswith('&') or q.endswith('*'):
+        q = strip_cv(q[:-1])
+    m = re.match(r'^(?:std::)?variant<(.*)>$', q, re.S)
+    if not m:
+        return None
+    return [_norm(a) for a in split_top(m.group(1))]
+
+
+def _alt_exact(alts, t, what):
+    t = _norm(t)
+    hits = [i for i, a in enumerate(alts) if a == t]
+    if len(hits) != 1:
+        raise Unsupported(f'{what}: type {t!r} is not exactly one alternative of variant<{", ".join(alts)}>')
+    return hits[0]
+
+
+def _alt_suffix(alts, t, what):
+    t = _norm(t).lstrip(':')
+    hits = [i for i, a in enumerate(alts) if a == t or a.endswith('::' + t)]
+    if len(hits) != 1:
+        raise Unsupported(f'{what}: spelled type {t!r} does not name exactly one alternative of variant<{", ".join(alts)}>')
+    return hits[0]
+
+
+def _strip_transparent(n):
+    from cxx2c import TRANSPARENT
+    while isinstance(n, dict) and n.get('kind') in TRANSPARENT and n.get('inner'):
+        n = n['inner'][0]
+    return n
+
+
+def _callee_name(n):
+    if n.get('kind') != 'CallExpr' or not n.get('inner'):
+        return None
+    return unwrap(n['inner'][0]).get('referencedDecl', {}).get('name')
+
+
+def _callee_param_alternatives(n):
+    """alternatives of the variant a std:: accessor (holds_alternative / get_if) was instantiated for, read from the
+    callee's function type `R (const variant<...> &|*) noexcept` (used when the argument's type is an undesugared alias)"""
+    ft = unwrap(n['inner'][0]).get('referencedDecl', {}).get('type', {}).get('qualType', '')
+    i = ft.find('(')
+    if i < 0:
+        return None
+    depth, j = 0, i
+    for j in range(i, len(ft)):
+        if ft[j] in '(<':
+            depth += 1
+        elif ft[j] in ')>':
+            depth -= 1
+            if depth == 0 and ft[j] == ')':
+                break
+    args = split_top(ft[i + 1:j])
+    return variant_alternatives(args[0]) if len(args) == 1 else None
+
+
+def variant_expr_hook():
+    """std::holds_alternative<T>(v) -> (v.index == k);  std::get_if<T>(&v) -> (v.index == k ? &v.a<k> : NULL);
+    variant{alternative value} (converting constructor, argument type exactly an alternative) -> {.index = k, .a<k> = e}"""
+    import astload
+
+    def h(P, n):
+        k = n.get('kind')
+        if k == 'CallExpr':
+            nm = _callee_name(n)
+            if nm == 'holds_alternative' and len(n['inner']) == 2:
+                arg = n['inner'][1]
+                alts = variant_alternatives(arg['type']) or _callee_param_alternatives(n)
+                if alts is None:
+                    raise Unsupported('holds_alternative on a non-variant')
+                src = astload.node_source(n['inner'][0]) or ''
+                m = re.search(r'holds_alternative\s*<(.*)>\s*$', src, re.S)
+                if not m:
+                    raise Unsupported(f'holds_alternative: template argument not found in source text {src!r}')
+                idx = _alt_suffix(alts, m.group(1), 'holds_alternative')
+                P.note(f'holds_alternative<{m.group(1).strip()}> -> index == {idx}')
+                return f'({P.expr(arg)}.index == {idx})'
+            if nm == 'get_if' and len(n['inner']) == 2:
+                arg = n['inner'][1]
+                alts = variant_alternatives(arg['type']) or _callee_param_alternatives(n)
+                if alts is None:
+                    raise Unsupported('get_if on a non-variant')
+                # the alternative asked for is the pointee of the result type (several spellings of it are around)
+                ft = unwrap(n['inner'][0]).get('referencedDecl', {}).get('type', {}).get('qualType', '')
+                cands = [n['type'].get('desugaredQualType', ''), n['type'].get('qualType', ''), ft[:ft.find('(')] if '(' in ft else '']
+                found = set()
+                for rt in cands:
+                    rt = strip_cv(rt)
+                    m = re.match(r'^(?:std::)?add_pointer_t<(.*)>$', rt, re.S)
+                    pointee = m.group(1) if m else (rt[:-1] if rt.endswith('*') else None)
+                    if pointee is not None:
+                        found |= {i for i, a in enumerate(alts) if a == _norm(pointee)}
+                if len(found) != 1:
+                    raise Unsupported(f'get_if: result type {cands!r} does not name exactly one alternative')
+                idx = found.pop()
+                P.note(f'get_if<{alts[idx]}> -> index == {idx} ? &a{idx} : NULL')
+                v = P.expr(arg)
+                return f'({v}->index == {idx} ? &{v}->a{idx} : NULL)'
+            return None
+        if k in ('CXXConstructExpr', 'CXXTemporaryObjectExpr'):
+            alts = variant_alternatives(n['type'])
+            if alts is None or len(n.get('inner', [])) != 1:
+                return None
+            a = n['inner'][0]
+            at = _norm(qual(a['type']))
+            if variant_alternatives(at) is not None:
+                return None     # copy / move of the variant itself
+            idx = _alt_exact(alts, at, 'variant converting constructor')
+            c = P.ctype(n['type'])
+            P.note(f'variant{{{alts[idx]}}} -> index {idx}')
+            return f'({c}){{.index = {idx}, .a{idx} = {P.expr(a)}}}'
+        return None
+    return h
+
+
+def _visit_parts(call):
+    """(lambdas, variant argument) of std::visit(overloaded{lambda...}, variant), else None"""
+    if _callee_name(call) != 'visit' or len(call['inner']) != 3:
+        return None
+    vis, var = call['inner'][1], call['inner'][2]
+    if 'overloaded<' not in qual(vis['type']):
+        raise Unsupported('std::visit with a visitor that is not overloaded{lambdas...}')
+    il = vis
+    while il.get('kind') != 'InitListExpr':
+        if len(il.get('inner', [])) != 1:
+            raise Unsupported('std::visit: visitor is not a braced list of lambdas')
+        il = il['inner'][0]
+    lams = []
+    for e in il['inner']:
+        u = e
+        while u.get('kind') != 'LambdaExpr':
+            if len(u.get('inner', [])) != 1:
+                raise Unsupported('std::visit: visitor element is not a lambda')
+            u = u['inner'][0]
+        lams.append(u)
+    return lams, var
+
+
+def _lambda_overloads(lam):
+    """[(parameter type normalised, operator() decl with a body)] -- for a generic lambda: the instantiations clang
+    made WITH a body, i.e. exactly those selected by overload resolution inside std::visit"""
+    rec = [c for c in lam['inner'] if c.get('kind') == 'CXXRecordDecl'][0]
+    out = []
+    for c in rec.get('inner', []):
+        if c.get('kind') == 'CXXMethodDecl' and c.get('name') == 'operator()':
+            out.append(c)
+        if c.get('kind') == 'FunctionTemplateDecl' and c.get('name') == 'operator()':
+            for m in c.get('inner', []):
+                if m.get('kind') == 'CXXMethodDecl' and any(x.get('kind') == 'TemplateArgument' for x in m.get('inner', [])):
+                    out.append(m)
+    res = []
+    for m in out:
+        ps = [x for x in m.get('inner', []) if x.get('kind') == 'ParmVarDecl']
+        body = [x for x in m.get('inner', []) if x.get('kind') == 'CompoundStmt']
+        if len(ps) != 1:
+            raise Unsupported('visitor lambda with other than one parameter')
+        if not body:
+            continue    # declared for overload resolution only, never selected
+        q = strip_cv(qual(ps[0]['type']))
+        byref = q.endswith('&')
+        q = q.rstrip('&')
+        if 'desugaredQualType' not in ps[0]['type']:
+            # clang does not desugar a reference-to-alias parameter type; a use of the parameter carries it
+            for x in walk_stmts(body[0]):
+                if x.get('kind') == 'DeclRefExpr' and x.get('referencedDecl', {}).get('id') == ps[0].get('id'):
+                    q = qual(x['type'])
+                    break
+        res.append((_norm(q), ps[0], body[0], byref))
+    return res
+
+
+def variant_visit_hook():
+    """statement hook:  std::visit(overloaded{lambda...}, v);  and  return std::visit(overloaded{lambda...}, v);
+    -> switch (v.index) with, per alternative, the body of the one lambda overload that clang selected for it
+    (exact-parameter lambdas by type; generic lambdas by the instantiations that have a body).  The lambda bodies are
+    printed in place (captures are the enclosing function's own variables).  A valueless variant throws
+    (std::bad_variant_access), as std::visit does."""
+    def h(P, n, ind):
+        u = _strip_transparent(n)
+        ret = False
+        if u.get('kind') == 'ReturnStmt' and u.get('inner'):
+            u = _strip_transparent(u['inner'][0])
+            ret = True
+        if not isinstance(u, dict) or u.get('kind') != 'CallExpr' or _callee_name(u) != 'visit':
+            return None
+        lams, var = _visit_parts(u)
+        alts = variant_alternatives(var['type'])
+        if alts is None:
+            raise Unsupported('std::visit on a non-variant')
+        table = []
+        for lam in lams:
+            table += _lambda_overloads(lam)
+        p = '  ' * ind
+        v = P.expr(var)
+        s = f'{p}switch ({v}.index)\n{p}{{\n'
+        for k, a in enumerate(alts):
+            hits = [t for t in table if t[0] == a]
+            if len(hits) != 1:
+                raise Unsupported(f'std::visit: {len(hits)} visitor overloads selected for alternative {a}')
+            _, parm, body, byref = hits[0]
+            if not ret and any(x.get('kind') == 'ReturnStmt' and x.get('inner') for x in walk_stmts(body)):
+                raise Unsupported('std::visit used as a statement with a value-returning visitor')
+            s += f'{p}  case {k}:\n{p}  {{\n'
+            if parm.get('name'):
+                c = P.ctype(parm['type'])
+                s += f'{p}    {c} {parm["name"]} = {"&" if byref else ""}{v}.a{k};\n'
+            s += P.stmt(body, ind + 2)
+            s += f'{p}    break;\n{p}  }}\n'
+        s += f'{p}  default:\n' + P.throw_stmt(p + '    ') + f'{p}}}\n'
+        P.note(f'std::visit(overloaded{{{len(lams)} lambdas}}, variant<{len(alts)}>) -> switch')
+        return s
+    return h
+
+
+def walk_stmts(n):
+    stack = [n]
+    while stack:
+        x = stack.pop()
+        if isinstance(x, dict):
+            yield x
+            if x.get('kind') != 'LambdaExpr':
+                stack.extend(reversed(x.get('inner', [])))
